@@ -49,6 +49,9 @@ theorem flatMap_congr_fun {α β : Type} (f g : α → List β) (h : ∀ x, f x 
   rw [flatten_flatMap]
   exact flatMap_congr_fun _ _ (fun e => by simp [cSEntry, encSEntry, List.flatten_append]) es
 
+@[simp] theorem cLastId_flatten (es : List SEntry) : (cLastId es).flatten = encLastId es := by
+  simp [cLastId, encLastId, List.flatten_append]
+
 @[simp] theorem cValue_flatten (v : Value) : (cValue v).flatten = encValue v := by
   cases v <;> simp [cValue, encValue, List.flatten_append]
 
